@@ -167,7 +167,7 @@ PROPS["C18"] = {
 
 PROPS["C13"] = {
     "level": "exploration",
-    "rule": "rapidcheck-generated: container {WAV, WAVEX, RF64, AIFF, CAF} x encoding x channels x 0..200 chunks (counts biased to 19-22, 30-33, 46-49 = the table growth steps) x ids {distinct 4-char, few ids with duplicates, 1-3 chars, mixed} x payload lengths {0..5, odd and 4k+-1, up to 2 KiB, occasional 20-48 KiB} x interleaved string/bext sets x 0..1000 frames x a late sf_set_chunk after audio x optional reserved id x reading part of the audio before the chunk queries; "
+    "rule": "byte order {container default, explicit LITTLE / BIG where sf_format_check accepts it: RIFX, AIFF-C sowt, little-endian CAF} x rapidcheck-generated: container {WAV, WAVEX, RF64, AIFF, CAF} x encoding x channels x 0..200 chunks (counts biased to 19-22, 30-33, 46-49 = the table growth steps) x ids {distinct 4-char, few ids with duplicates, 1-3 chars, mixed} x payload lengths {0..5, odd and 4k+-1, up to 2 KiB, occasional 20-48 KiB} x interleaved string/bext sets x 0..1000 frames x a late sf_set_chunk after audio x optional reserved id x reading part of the audio before the chunk queries; "
             "the audio through sf_writef_short or, for sample-granular encodings, through sf_write_raw alone; model = ordered list of accepted chunks; after re-open: full iteration visits them exactly once in order (library chunks identified by a twin file without custom chunks), by-id iteration visits exactly the chunks with that id, size within +3 of the payload length, payload equal and zero padded, short-buffer fetches stay inside an exact-size ASan block, audio and strings equal the twin; non-trivial = >= 21 chunks or duplicate ids or an odd payload; distinct = hash of the case",
     "assumptions": BASE_ASSUME + ["chunk sources and destinations are exact-size heap blocks; the invariant hook runs after every sf_set_chunk",
                                   "three listed findings partition off their own classes by signature (ids shorter than 4 chars, reserved ids, totals above ~48 KiB); everything else is asserted"],
@@ -178,7 +178,7 @@ PROPS["C13"] = {
 
 PROPS["C12"] = {
     "level": "exploration",
-    "rule": "rapidcheck-generated: container {WAV, WAVEX, RF64, AIFF, CAF} x encoding x channels x subset of {strings, bext, cart, cues, instrument, channel map} the static support table allows (plus, one case in eight, the items it does not allow) x random order of the set calls x values: strings of length classes {1-4, odd, 63/64/127/128/255/256, <= 60, 200-2000, even} of printable ASCII + 2-byte UTF-8, bext/cart with every fixed field filled (to its width or partially), coding history / tag text 0..255 bytes with CR, LF, CRLF mixes, 0..100 cue points with names, 0..16 loops of every mode, a legal channel layout x >= 1000 frames x late variant (one item set again after audio written through sf_writef_short or through sf_write_raw); "
+    "rule": "byte order {container default, explicit LITTLE / BIG where sf_format_check accepts it: RIFX, AIFF-C sowt, little-endian CAF} x rapidcheck-generated: container {WAV, WAVEX, RF64, AIFF, CAF} x encoding x channels x subset of {strings, bext, cart, cues, instrument, channel map} the static support table allows (plus, one case in eight, the items it does not allow) x random order of the set calls x values: strings of length classes {1-4, odd, 63/64/127/128/255/256, <= 60, 200-2000, even} of printable ASCII + 2-byte UTF-8, bext/cart with every fixed field filled (to its width or partially), coding history / tag text 0..255 bytes with CR, LF, CRLF mixes, 0..100 cue points with names, 0..16 loops of every mode, a legal channel layout x >= 1000 frames x late variant (one item set again after audio written through sf_writef_short or through sf_write_raw); "
             "every item optionally set once before with other values (the later set must replace it completely); bext / cart optionally passed in an exact-size heap block that ends with the text; optionally exactly one string type (including one the container has no field for); cue names up to 255 characters; oracle: get calls after re-open return the model value (identity except: software suffix, CRLF-normalised history + library line, the fields the container's chunk layout holds); audio and all items not set equal a twin file; non-trivial = >= 2 kinds in one file or a boundary-length string; distinct = hash of the case",
     "assumptions": BASE_ASSUME + ["which (container, item) pairs must round-trip is a static table in the harness transcribed from the chunk definitions (not learned from the library)",
                                   "WAV smpl cannot hold a negative detune (unsigned pitch fraction): detune is asserted for values >= 0 only; cue names are asserted for AIFF only (WAV never writes them)",
